@@ -98,17 +98,28 @@ static int a5_snprintf_u(char *s, size_t n, const char *fmt, uint64_t a) { g_pr.
 static int a5_snprintf_i(char *s, size_t n, const char *fmt, int64_t a) { g_pr.ival = a; return a5_rec(s, n, fmt, 1); }
 static int a5_snprintf_p(char *s, size_t n, const char *fmt, const char *a) { g_pr.str = a; return a5_rec(s, n, fmt, 2); }
 #undef snprintf
-/* print_arg hands over a run-time format and a value; the other uses print a `const char *` with the literal "%s" */
-#define snprintf(s, n, fmt, a) _Generic((a), \
-	char *: a5_snprintf_p, const char *: a5_snprintf_s, \
+/* The uses with the literal "%s" (format_region: default format of a type; compile path: names, signature) copy a
+ * string; print_arg hands over a run-time format and a value.  Selected by the type of the FORMAT expression (a
+ * literal is a char[3]); goto-cc's _Generic does not tell `char *` from `const char *` (measured). */
+#define snprintf(s, n, fmt, a) _Generic(&(fmt), char (*)[3]: a5_snprintf_s, default: _Generic((a), \
+	char *: a5_snprintf_p, const char *: a5_snprintf_p, \
 	uint8_t: a5_snprintf_u, uint16_t: a5_snprintf_u, uint32_t: a5_snprintf_u, uint64_t: a5_snprintf_u, \
-	default: a5_snprintf_i)((s), (n), (fmt), (a))
+	default: a5_snprintf_i))((s), (n), (fmt), (a))
 
 #include "ev_spec.c"         /* the real /repo/src/emu/ev_spec.c */
 
 #define RET __CPROVER_return_value
 #define OLD(e) __CPROVER_old(e)
 #define IMPLIES(a, b) (!(a) || (b))
+
+/* Specification functions (the a5_* predicates used in contract clauses) are compiled without pointer / bounds
+ * checks: every read they make is guarded by the same r_ok facts the contracts state, and the checks on ~10^4 spec
+ * reads of symbolic-size objects tripled the formula (measured on format_region: 38 M clauses).  The real code,
+ * the libc models and the harness functions keep every check. */
+#define A5_SPEC_BEGIN _Pragma("CPROVER check push") _Pragma("CPROVER check disable \"pointer\"") \
+	_Pragma("CPROVER check disable \"bounds\"") _Pragma("CPROVER check disable \"pointer-overflow\"") \
+	_Pragma("CPROVER check disable \"pointer-primitive\"")
+#define A5_SPEC_END _Pragma("CPROVER check pop")
 
 /* ---- the input string ---- */
 #define A5_MAXLEN 0x7fffffffUL             /* any length an int-indexed C string can have */
@@ -120,6 +131,7 @@ static int a5_snprintf_p(char *s, size_t n, const char *fmt, const char *a) { g_
  * specification functions read it at CONSTANT positions g_txt[p] and compare p with the cursor's offset. */
 const char *g_txt;
 #define A5_SLEN ((int) (__CPROVER_OBJECT_SIZE(g_txt) - 1))      /* position of the terminator */
+A5_SPEC_BEGIN
 /* no NUL among the first A5_WIN bytes of the text, its last byte excepted */
 static int a5_window_nonul(int slen)
 {
@@ -136,6 +148,7 @@ static char a5_at(int pos)
 			return g_txt[q];
 	return 0;
 }
+A5_SPEC_END
 /* p points into the text (see the head of the file), at most 66 characters from its start: what a parsing loop
  * with a 64-byte buffer can look at lies inside the window */
 #define A5_STR_PRE(p) (__CPROVER_r_ok(g_txt, 1) && A5_OFF(g_txt) == 0 && __CPROVER_OBJECT_SIZE(g_txt) <= A5_MAXLEN + 1 && \
@@ -172,6 +185,7 @@ void h_advance_in(void)
 /* ====================================================================================
  * parse_printf_format:   %3d{cpu}      c->in points behind the '%'
  * ==================================================================================== */
+A5_SPEC_BEGIN
 /* number of characters from position off up to the first '{' or the terminator; 64 if neither comes within 64 */
 static int a5_fmt_stop(int slen, int off)
 {
@@ -210,7 +224,7 @@ static int a5_pf_accepted(const char *in0, const char *in1, const char *fmt, int
 {
 	int off = (int) A5_OFF(in0);
 	int k = a5_fmt_stop(A5_SLEN, off);
-	if (!(__CPROVER_same_object(in1, in0) && in1 - in0 == k))
+	if (!(__CPROVER_same_object(in1, in0) && A5_OFF(in1) == A5_OFF(in0) + (unsigned long) k))
 		return 0;
 	if (!(fmt[0] == '%' && fmt[k + 1] == '\0'))
 		return 0;
@@ -225,8 +239,9 @@ static int a5_pf_accepted(const char *in0, const char *in1, const char *fmt, int
 static int a5_pf_refused(const char *in0, const char *in1)
 {
 	int k = a5_fmt_stop(A5_SLEN, (int) A5_OFF(in0));
-	return __CPROVER_same_object(in1, in0) && in1 >= in0 && in1 - in0 <= k;
+	return __CPROVER_same_object(in1, in0) && A5_OFF(in1) >= A5_OFF(in0) && A5_OFF(in1) <= A5_OFF(in0) + (unsigned long) k;
 }
+A5_SPEC_END
 int c_parse_printf_format(char *fmt, int buflen, struct cursor *c)
 __CPROVER_requires(__CPROVER_rw_ok(c, sizeof(*c)) && A5_STR_PRE(c->in) && DIAG_PRE)
 __CPROVER_requires(buflen >= 0 && buflen <= A5_BUF && (buflen == 0 || __CPROVER_w_ok(fmt, (size_t) buflen)))
@@ -234,7 +249,7 @@ __CPROVER_assigns(c->in, DIAG_FRAME)
 __CPROVER_assigns(buflen > 0: __CPROVER_object_upto(fmt, (size_t) buflen))
 __CPROVER_ensures(RET == 0 || RET == -1)
 __CPROVER_ensures((RET == 0) == (a5_pf_legal(PF_IN0, buflen) ? 1 : 0))
-__CPROVER_ensures(IMPLIES(RET == 0, a5_pf_accepted(PF_IN0, c->in, fmt, g_j)))
+__CPROVER_ensures(IMPLIES(RET == 0, a5_pf_accepted(PF_IN0, c->in, fmt, g_j) && g_err == OLD(g_err) && g_diag == OLD(g_diag) && g_warn == OLD(g_warn)))
 /* (the cursor once more, in the form a caller's value set needs) */
 __CPROVER_ensures(IMPLIES(RET == 0, __CPROVER_pointer_equals(c->in, PF_IN0 + a5_fmt_stop(A5_SLEN, (int) A5_OFF(PF_IN0)))))
 __CPROVER_ensures(IMPLIES(RET != 0, g_err > OLD(g_err) && g_err - OLD(g_err) <= 2 && g_diag - OLD(g_diag) <= 2 && g_warn == OLD(g_warn) && a5_pf_refused(PF_IN0, c->in)))
@@ -263,6 +278,7 @@ void h_parse_printf_format(void)
 /* ====================================================================================
  * parse_arg_name:   %3d{cpu}      c->in points behind the '{'
  * ==================================================================================== */
+A5_SPEC_BEGIN
 /* number of letters and digits from position off up to the first other character (the terminator included); 64 if
  * there are more */
 static int a5_name_stop(int slen, int off)
@@ -289,7 +305,7 @@ static int a5_pn_accepted(const char *in0, const char *in1, const char *arg, int
 {
 	int off = (int) A5_OFF(in0);
 	int k = a5_name_stop(A5_SLEN, off);
-	if (!(__CPROVER_same_object(in1, in0) && in1 - in0 == k))
+	if (!(__CPROVER_same_object(in1, in0) && A5_OFF(in1) == A5_OFF(in0) + (unsigned long) k))
 		return 0;
 	if (arg[k] != '\0')
 		return 0;
@@ -302,8 +318,9 @@ static int a5_pn_accepted(const char *in0, const char *in1, const char *arg, int
 static int a5_pn_refused(const char *in0, const char *in1)
 {
 	int k = a5_name_stop(A5_SLEN, (int) A5_OFF(in0));
-	return __CPROVER_same_object(in1, in0) && in1 >= in0 && in1 - in0 <= k;
+	return __CPROVER_same_object(in1, in0) && A5_OFF(in1) >= A5_OFF(in0) && A5_OFF(in1) <= A5_OFF(in0) + (unsigned long) k;
 }
+A5_SPEC_END
 int c_parse_arg_name(char *arg, int buflen, struct cursor *c)
 __CPROVER_requires(__CPROVER_rw_ok(c, sizeof(*c)) && A5_STR_PRE(c->in) && DIAG_PRE)
 __CPROVER_requires(buflen >= 0 && buflen <= A5_BUF && (buflen == 0 || __CPROVER_w_ok(arg, (size_t) buflen)))
@@ -311,7 +328,7 @@ __CPROVER_assigns(c->in, DIAG_FRAME)
 __CPROVER_assigns(buflen > 0: __CPROVER_object_upto(arg, (size_t) buflen))
 __CPROVER_ensures(RET == 0 || RET == -1)
 __CPROVER_ensures((RET == 0) == (a5_pn_legal(PF_IN0, buflen) ? 1 : 0))
-__CPROVER_ensures(IMPLIES(RET == 0, a5_pn_accepted(PF_IN0, c->in, arg, g_j)))
+__CPROVER_ensures(IMPLIES(RET == 0, a5_pn_accepted(PF_IN0, c->in, arg, g_j) && g_err == OLD(g_err) && g_diag == OLD(g_diag) && g_warn == OLD(g_warn)))
 __CPROVER_ensures(IMPLIES(RET == 0, __CPROVER_pointer_equals(c->in, PF_IN0 + a5_name_stop(A5_SLEN, (int) A5_OFF(PF_IN0)))))
 __CPROVER_ensures(IMPLIES(RET != 0, g_err > OLD(g_err) && g_err - OLD(g_err) <= 2 && g_diag - OLD(g_diag) <= 2 && g_warn == OLD(g_warn) && a5_pn_refused(PF_IN0, c->in)))
 ;
@@ -342,6 +359,7 @@ void h_parse_arg_name(void)
  * ==================================================================================== */
 #include "c19_specwf.h"      /* SPEC_WF, SPEC_NAMES_TERMINATED: what ev_spec_compile produces */
 
+A5_SPEC_BEGIN
 /* the name looked up is a string: its terminator is inside its object, or the object has at least 64 bytes
  * (a declared name has at most 63 characters and its terminator, so a comparison never goes further) */
 static int a5_name_ok(const char *name)
@@ -400,6 +418,7 @@ static int a5_fa_observer(const struct ev_spec *spec, const char *name, const st
 		return 0;
 	return 1;
 }
+A5_SPEC_END
 struct ev_arg *c_ev_spec_find_arg(struct ev_spec *spec, const char *name)
 __CPROVER_requires(__CPROVER_r_ok(spec, sizeof(*spec)) && spec->nargs >= 0 && spec->nargs <= MAX_ARGS && SPEC_NAMES_TERMINATED(spec))
 __CPROVER_requires(__CPROVER_r_ok(name, 1) && a5_name_ok(name))
@@ -431,13 +450,14 @@ void h_ev_spec_find_arg(void)
  * snprintf -- destination, room, format, VALUE -- is observed in the recording stub.
  * ==================================================================================== */
 #include "ovni.h"
+A5_SPEC_BEGIN
 /* the default format of a type, as ovnidump shows the values of doc/user/emulation/events.md (x86-64 glibc) */
 static char a5_default_fmt(int type, int j)
 {
 	const char *f =
-		type == U8 ? "%hhu" : type == U16 ? "%hu" : type == U32 ? "%u" : type == U64 ? "%lu" :
-		type == I8 ? "%hhd" : type == I16 ? "%hd" : type == I32 ? "%d" : type == I64 ? "%ld" : "%s";
-	for (int q = 0; q < 5; q++) {
+		(type == U8 || type == U16 || type == U32) ? "%u" : type == U64 ? "%lu" :
+		(type == I8 || type == I16 || type == I32) ? "%d" : type == I64 ? "%ld" : "%s";
+	for (int q = 0; q < 4; q++) {
 		if (q == j)
 			return f[q];
 		if (f[q] == '\0')
@@ -466,7 +486,8 @@ static uint64_t a5_load(const uint8_t *payload, unsigned long off, unsigned long
 			v |= (uint64_t) payload[off + b] << (8 * b);
 	return v;
 }
-/* pre-state, bound in requires (format_region's contract is never used as a replacement) */
+/* pre-state: ASSIGNED by the harness function before the call (a ghost pointer that is only assumed equal to
+ * c->out does not dereference to the buffer: HOWTO pitfall 1); format_region's contract is never used as a replacement */
 int g_len0; char *g_out0; const uint8_t *g_payload; unsigned long g_psize;
 /* What the region says (cls: 0 = malformed, 1 = "%%", 2 = well-formed region), where it ends, which argument it
  * names (idx, -1 = not declared), the length f of its format (0 = none: the default of the type) */
@@ -539,9 +560,9 @@ static int a5_fr_post(int ret, const struct ev_spec *spec, const struct cursor *
 		/* the format: '%' + the text between '%' and '{' + NUL, or the default of the argument's type */
 		char ej = r.f > 0 ? (g_j == 0 ? '%' : g_j <= r.f ? a5_at(g_j) : 0) : a5_default_fmt((int) a->type, g_j);
 		char ej2 = r.f > 0 ? (g_j2 == 0 ? '%' : g_j2 <= r.f ? a5_at(g_j2) : 0) : a5_default_fmt((int) a->type, g_j2);
-		if (g_j >= 0 && g_j <= (r.f > 0 ? r.f + 1 : 4) && g_pr.f_j != ej)
+		if (g_j >= 0 && g_j <= (r.f > 0 ? r.f + 1 : 3) && g_pr.f_j != ej)
 			return 9;
-		if (g_j2 >= 0 && g_j2 <= (r.f > 0 ? r.f + 1 : 4) && g_pr.f_j2 != ej2)
+		if (g_j2 >= 0 && g_j2 <= (r.f > 0 ? r.f + 1 : 3) && g_pr.f_j2 != ej2)
 			return 10;
 		/* the value: the named argument's bytes of the payload, by its declared type */
 		if (a->type == STR) {
@@ -553,8 +574,10 @@ static int a5_fr_post(int ret, const struct ev_spec *spec, const struct cursor *
 			if (!is_signed && !(g_pr.kind == 0 && g_pr.uval == v))
 				return 12;
 			if (is_signed) {
-				int64_t sv = a->size == 1 ? (int64_t) (int8_t) (v & 0xff) : a->size == 2 ? (int64_t) (int16_t) (v & 0xffff) :
-					a->size == 4 ? (int64_t) (int32_t) (v & 0xffffffffu) : (int64_t) v;
+				/* two's complement value of the low `size` bytes (no narrowing casts: conversion checks are on) */
+				uint64_t sign = a->size == 8 ? 0x8000000000000000ULL : (uint64_t) 1 << (8 * a->size - 1);
+				uint64_t mag = (v & sign) ? (a->size == 8 ? ~v + 1 : ((uint64_t) 1 << (8 * a->size)) - v) : v;
+				int64_t sv = (v & sign) ? (mag == 0x8000000000000000ULL ? INT64_MIN : -(int64_t) mag) : (int64_t) mag;
 				if (!(g_pr.kind == 1 && g_pr.ival == sv))
 					return 13;
 			}
@@ -565,6 +588,7 @@ static int a5_fr_post(int ret, const struct ev_spec *spec, const struct cursor *
 	}
 	return 0;
 }
+A5_SPEC_END
 int c_format_region(struct ev_spec *spec, struct cursor *c, struct emu_ev *ev)
 __CPROVER_requires(__CPROVER_r_ok(spec, sizeof(*spec)) && SPEC_WF(spec))
 /* the event holds the declared payload and its strings (check_payload, plan C18 / C19) */
@@ -602,11 +626,12 @@ void h_format_region(void)
 	uint8_t *pay = psize > 0 ? malloc(psize) : NULL;
 	__CPROVER_assume(psize == 0 || pay != NULL);
 	h_ev.payload = (const union ovni_ev_payload *) pay; h_ev.payload_size = psize;
+	g_len0 = c.len; g_out0 = c.out; g_payload = pay; g_psize = psize;
 	int r = format_region(&h_spec, &c, &h_ev);
 	if (r == 0 && in[1] == '%') REACH("%% accepted");
-	if (r == 0 && in[1] == '{' && in[5] == '}' && len > 1000) REACH("%{abc} accepted at the head of a long text");
-	if (r == 0 && in[1] != '{' && in[1] != '%' && c.in == in + 131) REACH("longest region (62-character format, 63-character name) accepted");
+	if (r == 0 && len > 1000 && in[1] == '{' && in[5] == '}') REACH("%{abc} accepted at the head of a long text");
+	if (r == 0 && len > 1000 && in[1] != '{' && in[1] != '%' && c.in == in + 131) REACH("longest region (62-character format, 63-character name) accepted");
 	if (r != 0 && g_pr.calls == 1) REACH("no room for the value: refused");
-	if (r != 0 && g_pr.calls == 0 && in[0] == '%' && in[1] == '{' && in[2] == 'x' && in[3] == '}' && c.len > 0) REACH("%{x} with no argument x declared: refused");
-	if (r != 0 && in[0] == '%' && in[1] == 'd' && in[2] == '\0') REACH("unterminated region refused");
+	if (r != 0 && len > 4 && g_pr.calls == 0 && in[0] == '%' && in[1] == '{' && in[2] == 'x' && in[3] == '}' && c.len > 0) REACH("%{x} with no argument x declared: refused");
+	if (r != 0 && len == 2 && in[0] == '%' && in[1] == 'd') REACH("unterminated region refused");
 }
